@@ -1,6 +1,9 @@
 package seq
 
-import "reflect"
+import (
+	"reflect"
+	"unicode/utf8"
+)
 
 // helper for rewrite for range statement
 
@@ -18,7 +21,7 @@ func NewIntegerIter(n int) Iterator[pair[int, any]] {
 }
 
 func NewStringIter(str string) Iterator[pair[int, rune]] {
-	return &stringIter{str: []rune(str), idx: -1}
+	return &stringIter{str: str}
 }
 
 func NewSliceIter[V any](slice []V) Iterator[pair[int, V]] {
@@ -50,17 +53,24 @@ func (i *integerIter) Current() pair[int, any] {
 }
 
 type stringIter struct {
-	str []rune
-	idx int
+	str   string
+	idx   int  // byte offset of the current rune
+	width int  // byte width of the current rune
+	val   rune // current rune, U+FFFD for invalid UTF-8
 }
 
 func (s *stringIter) MoveNext() bool {
-	s.idx++
-	return s.idx < len(s.str)
+	s.idx += s.width
+	if s.idx >= len(s.str) {
+		s.width = 0
+		return false
+	}
+	s.val, s.width = utf8.DecodeRuneInString(s.str[s.idx:])
+	return true
 }
 
 func (s *stringIter) Current() pair[int, rune] {
-	return pair[int, rune]{Key: s.idx, Val: s.str[s.idx]}
+	return pair[int, rune]{Key: s.idx, Val: s.val}
 }
 
 type sliceIter[V any] struct {
